@@ -440,8 +440,12 @@ def _desc_locals(p: Path, t: str) -> set[str]:
     out: set[str] = set()
     for ev in p.events:
         n = ev.node
+        tgt = None
         if ev.kind == "assign" and isinstance(n, ast.Assign) and len(n.targets) == 1 and isinstance(n.targets[0], ast.Name):
-            v = n.value
+            tgt, v = n.targets[0].id, n.value
+        elif ev.kind == "assign" and isinstance(n, ast.NamedExpr) and isinstance(n.target, ast.Name):
+            tgt, v = n.target.id, n.value  # `if not (child := node.maybe_child(i)):`
+        if tgt is not None:
             steps = []
             root = v
             while isinstance(root, (ast.Attribute, ast.Call)):
@@ -451,5 +455,5 @@ def _desc_locals(p: Path, t: str) -> set[str]:
                     steps.append(root.attr)
                     root = root.value
             if isinstance(root, ast.Name) and root.id == t and any(s in ("child", "maybe_child", "first_child", "last_child") for s in steps):
-                out.add(n.targets[0].id)
+                out.add(tgt)
     return out
